@@ -30,3 +30,30 @@ Definition try_from_cr_before_fix (u : tunit) (x : Z) : option crdt :=
 
 (* datetime.rs 149: the deprecated to_cr is as_cr *)
 Definition to_cr (u : tunit) (x : Z) : option crdt := as_cr u x.
+
+(* ------------------------------------------------------------------ additions of the C16 audit (YC) — additive only *)
+(* impl_datetime.rs 36-42 `Default for DateTime<U>` = nat(); impl_timedelta.rs 7-12 `Default for TimeDelta` = nat();
+   time.rs 12 `#[derive(Default)] struct Time(pub i64)` = Time(0) — midnight, NOT Time::nat()                     *)
+Definition dt_default : Z := NaT.
+Definition td_default : tdelta := td_nat.
+Definition time_default : Z := 0.
+
+(* impl_datetime.rs 55-89: From<NaiveDateTime> (`from_naive_utc_and_offset(dt, Utc).into()`: the same (secs, nanos)),
+   From<Option<NaiveDateTime>> (None = nat()), From<NaiveDate> (`and_hms_opt(0, 0, 0).unwrap()` then the same);
+   a NaiveDate is its day number since 1970-01-01 (inside chrono's range)                                           *)
+Definition from_naive (u : tunit) (c : crdt) : res Z := from_cr u c.
+Definition from_opt_naive (u : tunit) (o : option crdt) : res Z :=
+  match o with Some c => from_cr u c | None => Ok NaT end.
+Definition from_naive_date (u : tunit) (day : Z) : res Z := from_cr u (mkcr (day * SECS_PER_DAY) 0).
+
+(* impl_timedelta.rs 14-33: From<Duration> (months = 0) and From<Option<Duration>> (None = nat()); a chrono Duration is
+   its total number of nanoseconds                                                                                    *)
+Definition td_from_dur (ns : Z) : tdelta := mktd 0 ns.
+Definition td_from_opt_dur (o : option Z) : tdelta := match o with Some ns => td_from_dur ns | None => td_nat end.
+
+(* cast.rs 313-326 Cast<i64> / Cast<Option<i64>> for DateTime<U> (= into_i64 / into_opt_i64), 365-379 the same for Time,
+   time_unit_cast! 507-547 Cast<DateTime<T>> for DateTime<U> for the 12 distinct pairs (= into_unit)                  *)
+Definition dt_cast_i64 (x : Z) : Z := x.
+Definition dt_cast_opt_i64 (x : Z) : option Z := into_opt_i64 x.
+Definition time_cast_opt_i64 (t : Z) : option Z := if time_is_nat t then None else Some t.
+Definition dt_cast_unit (u t : tunit) (x : Z) : res Z := into_unit u t x.
